@@ -141,6 +141,44 @@ def writer(prog, rep):
                       function=f.name, construct="launch-min")
     if nl < 2:
         rep.defer_broken("F1: fewer than 2 transport launches in netbuf_write.c")
+    # F1-progress: the queue does not stall.  poke answers "nothing to do" (returns 0 without having launched a write) only when a
+    # write is in flight, the writer has failed, or the queue holds no buffer at all -- an empty buffer at the head is not "nothing
+    # to write" when data is queued behind it
+    pk = u.func("poke")
+    if pk is not None:
+        lpos = [c for c, _ in launches(pk)]
+        lblocks = set(c.block.id for c in lpos)
+
+        def reach_without_launch(target):
+            seen, work = set(), [pk.entry]
+            while work:
+                b = work.pop()
+                if b in seen or b in lblocks:
+                    continue
+                if b == target:
+                    return True
+                seen.add(b)
+                work.extend(x for x in pk.blocks[b].succs if x is not None)
+            return False
+        for r in pk.returns():
+            if norm(r.kid(0)) != ("c", 0) or not reach_without_launch(r.block.id):
+                continue
+            at = []
+            for cond, truth in pk.edge_conds(r):
+                at += [(op, L, R) for op, L, R, _, _ in cond_atoms(cond, truth)]
+            for b in pk.blocks.values():
+                if b.cond is None:
+                    continue
+                for i, sb in enumerate(b.succs):
+                    if sb == r.block.id:
+                        at += [(op, L, R) for op, L, R, _, _ in cond_atoms(b.cond, i == 0)]
+            firsts = set(norm(e.kid(0)) for e in pk.all_elems() if e.is_assign and e.op == "=" and any(t[0] == "." and t[2] == "stqh_first" for t in subterms(norm(e.kid(1)))))
+            idle = any((op == "!=" and fld(L, "write_cookie") and R == ("c", 0)) or (op == "!=" and fld(L, "failed") and R == ("c", 0)) or
+                       (op == "==" and R == ("c", 0) and (L in firsts or any(t[0] == "." and t[2] == "stqh_first" for t in subterms(L)))) for op, L, R in at)
+            rep.check(idle, "F1-progress", "poke: `return (0)` at line %d without a launch" % r.line, r.where,
+                      "poke gives up without starting a write although no write is in flight, the writer has not failed and the queue may hold data "
+                      "(known on this edge: %s): the queue stalls, nothing more is sent and no failure is reported" % [(o, show(l), show(rr)) for o, l, rr in at][-3:],
+                      function="poke", construct="stall")
     # F1c netbuf_write_write
     f = u.func("netbuf_write_write")
     if f is None:
@@ -677,6 +715,7 @@ def run(tier):
         # network_write / network_read breaks the stream seen through netbuf (C06's rules, shared)
         from . import c06
         # a completed transport operation's handle is dropped before anything can cancel through it
+        c06.borrow_ref_rule(prog, rep, [WU, RU])
         if c06.handle_clear_rule(prog, rep, [WU, RU]) < 3:
             rep.defer_broken("SLOT: fewer than 3 (handle field, completion callback) pairs found in the buffered reader/writer")
         tprog = ir.Program(list(TRANSPORT), cfg)
@@ -684,6 +723,7 @@ def run(tier):
         for up in TRANSPORT:
             rec, rel, ctor, cancel = c06.UNITS[up]
             L, kinds = c06.lin_rule(tprog, rep, up, rec, rel)
+            c06.cancel_rule(tprog, rep, up, rec, ctor, cancel, L, kinds)     # tearing the writer down must not take the reader's registration with it
             c06.n2_n3(tprog, rep, up, L)
             c06.n5(tprog, rep, up, L)
             c06.n6_relational(tprog, rep, up, L)
